@@ -5,6 +5,8 @@ use crate::Case;
 use serde::{Deserialize, Serialize};
 use vengine::gen::idx;
 
+pub const HUGE_U64: [u64; 5] = [u32::MAX as u64, u32::MAX as u64 + 1, 1 << 40, (1 << 53) + 1, u64::MAX];
+
 /// Reads the generated dials in order; missing dials read as 0 (the value shrinking converges to).
 pub struct Knobs<'a> {
     v: &'a [u16],
@@ -22,6 +24,14 @@ impl<'a> Knobs<'a> {
     /// index in `0..n`, monotone in the dial
     pub fn pick(&mut self, n: usize) -> usize {
         idx(self.next(), n)
+    }
+    /// one case in eight: an extreme integer setting (beyond u32, beyond 2^53 = not a JSON/f64 number, type maximum)
+    pub fn huge_u64(&mut self) -> Option<u64> {
+        if self.next() >= 0xE000 {
+            Some(HUGE_U64[self.pick(HUGE_U64.len())])
+        } else {
+            None
+        }
     }
     pub fn flag(&mut self) -> bool {
         self.next() >= 0x8000
